@@ -22,6 +22,7 @@ stored key.  The `…_weak` theorems are the general statements; for a `TotalCmp
 import Golib.Proof.C02Refine
 import Golib.Proof.C02Cmp
 import Golib.Proof.C02Walk
+import Golib.Proof.C02Seq
 import Golib.Gen.FactsC02
 
 namespace Golib.C02
@@ -279,6 +280,27 @@ theorem c02_node_walk_weak (cfg : Cfg K V) (hc : WeakCmp cfg.cmp) (hf : cfg.fixe
     fun _ hn => walkNodes_good_weak cfg hc hg hn,
     fun _ _ op _ _ _ hs hn => walkNodes_after_step_weak cfg hc hf hg op hs hn⟩
 
+/-- Held `iter.Seq2` values (`seq := s.All()` kept by the caller).  `All()` returns a closure over
+the list OBJECT, so the value has no state of its own (model: `SL.range` on the list as it is when
+the loop starts).  Obtain the Seq in any reachable state `s0`, let ANY history `ops` happen (Clear,
+Init-equivalent runs, the lazy init of the first Set on a zero value, removals, …), then range it
+in whatever way: fully or with an early break (`n`), with a break after `j` and then again, nested
+over itself (`j` outer rounds: every inner traversal sees every binding), or through two
+alternating `iter.Pull2` cursors (the first stopped after `a` values) — every traversal
+enumerates exactly the CURRENT bindings in ascending key order, no call panics, and ranging
+changes nothing (all results are functions of `toMap s`, so a second range gives the same). -/
+theorem c02_seq_reusable (cfg : Cfg K V) (hc : WeakCmp cfg.cmp) (hf : cfg.fixed = true)
+    (s0 : SL K V) (hg : Good cfg s0) (ops : List (Op K V)) (n j a : Nat) :
+    ∃ s outs, SL.run cfg s0 ops = some (s, outs) ∧ Good cfg s ∧
+      s.range cfg n = some (stopAfter n (toMap s)) ∧
+      s.seqTwice cfg j = some (stopAfter j (toMap s), toMap s) ∧
+      s.seqNest cfg j = some (stopAfter j (toMap s),
+        List.replicate (stopAfter j (toMap s)).length (toMap s).length) ∧
+      s.pull2 cfg a = some (stopAfter a (toMap s), toMap s) := by
+  obtain ⟨s, outs, h1, h2, _⟩ := run_sim_weak cfg hc hf ops hg
+  exact ⟨s, outs, h1, h2, range_eq_weak cfg hc hf h2 n, seqTwice_eq cfg hc hf h2 j,
+    seqNest_eq cfg hc hf h2 j, pull2_eq cfg hc hf h2 a⟩
+
 /-- The comparators the harness instantiates the theorems with (built-in order on int and on
 strings = bytewise lexicographic, modular-then-value, length-then-bytes, the comparators that
 answer with arbitrary magnitudes — `a-b`, `7(a-b)`, `sign·(1+hash)`, byte/length difference —, the
@@ -403,5 +425,16 @@ example :
     (res.bind fun p => SL.run cfgHalf p.1 [.remove 8, .set 6 60 (1 <<< 29)]).map
       (fun q => q.1.walkNodes (chain0 q.1).length (some 4)) = some (some [(4, 50), (6, 60)]) := by
   decide
+
+/-- `c02_seq_reusable` on a concrete run: a Seq obtained on the zero value, then two Sets, a Clear
+and two Sets: ranging twice with a break after 1, nested with 2 outer rounds, two Pull2 cursors. -/
+example :
+    ((SL.run cfgEx SL.zero [.set 5 50 (1 <<< 30), .set 3 30 0, .clear, .set 8 80 0, .set 2 20 0]).bind
+      fun p => p.1.seqTwice cfgEx 1) = some ([(2, 20)], [(2, 20), (8, 80)]) ∧
+    ((SL.run cfgEx SL.zero [.set 5 50 (1 <<< 30), .set 3 30 0, .clear, .set 8 80 0, .set 2 20 0]).bind
+      fun p => p.1.seqNest cfgEx 2) = some ([(2, 20), (8, 80)], [2, 2]) ∧
+    ((SL.run cfgEx SL.zero [.set 5 50 (1 <<< 30), .set 3 30 0, .clear, .set 8 80 0, .set 2 20 0]).bind
+      fun p => p.1.pull2 cfgEx 1) = some ([(2, 20)], [(2, 20), (8, 80)]) := by
+  refine ⟨by decide, by decide, by decide⟩
 
 end Golib.C02
